@@ -98,6 +98,10 @@ where
         buffer: &mut DumpBuf,
         dirent: Option<MDRawDirectory>,
     ) -> std::result::Result<(), FileWriterError> {
+        // Offsets in a minidump are 32 bits wide. An image that has outgrown them cannot be
+        // described: the offsets handed out for its tail have wrapped around.
+        u32::try_from(buffer.position()).map_err(MemoryWriterError::from)?;
+
         // Append the new bytes first and only then publish the directory entry that refers to
         // them, so that a truncated file never has an entry pointing past its end.
         let start_pos = self.last_position_written_to_file as usize;
